@@ -291,7 +291,7 @@ def run_machine(draws, state, tier):
     res.count("runs")
     res.count("ops", len(seq))
     res.digest = hashlib.sha256(
-        repr((seq, [v.to_json() for v in V])).encode()).hexdigest()
+        repr((seq, [(v.oracle, v.key) for v in V])).encode()).hexdigest()
     res.samples = {"schema": entry.name, "ops": [list(s) for s in seq]}
     return res
 
